@@ -457,11 +457,32 @@ func (t *termer) term(v ssa.Value, d int) string {
 			if s, ok := t.inlineResult(call, x.Index, d); ok {
 				return s
 			}
+			// the rune cursor of a hand-written decode loop: utf8.DecodeRuneInString(s[pos:])
+			if s, ok := runeCursorCall(c, call); ok {
+				if x.Index == 0 {
+					return "runeat(" + t.term(s, d+1) + ")"
+				}
+				return "runewidth(" + t.term(s, d+1) + ")"
+			}
+		}
+		// the rune cursor of `for pos, r := range s` over a string
+		if nx, ok := x.Tuple.(*ssa.Next); ok && nx.IsString {
+			if rg, ok := nx.Iter.(*ssa.Range); ok {
+				switch x.Index {
+				case 1:
+					return "runepos(" + t.term(rg.X, d+1) + ")"
+				case 2:
+					return "runeat(" + t.term(rg.X, d+1) + ")"
+				}
+			}
 		}
 		return t.term(x.Tuple, d+1) + "#" + fmt.Sprint(x.Index)
 	case *ssa.Phi:
 		if t.phis[x] {
 			return "phi↺"
+		}
+		if s, ok := runePosPhi(c, x); ok {
+			return "runepos(" + t.term(s, d+1) + ")"
 		}
 		t.phis[x] = true
 		set := map[string]bool{}
@@ -935,4 +956,74 @@ func (c *Ctx) valueUsedOnlyOnSuccess(call *ssa.Call, idx int) bool {
 		}
 	}
 	return n > 0
+}
+
+// runePosPhi: p is the byte position of a hand-written rune loop over string s:
+// p = 0 on entry and p + width(DecodeRuneInString(s[p:])) on every back edge.
+func runePosPhi(c *Ctx, p *ssa.Phi) (ssa.Value, bool) {
+	if bt, ok := p.Type().Underlying().(*types.Basic); !ok || bt.Info()&types.IsInteger == 0 {
+		return nil, false
+	}
+	var s ssa.Value
+	nBack := 0
+	for i, e := range p.Edges {
+		pred := p.Block().Preds[i]
+		if !p.Block().Dominates(pred) {
+			if k, ok := constInt(e); !ok || k != 0 {
+				return nil, false
+			}
+			continue
+		}
+		bo, ok := e.(*ssa.BinOp)
+		if !ok || bo.Op != token.ADD || bo.X != ssa.Value(p) {
+			return nil, false
+		}
+		ex, ok := bo.Y.(*ssa.Extract)
+		if !ok || ex.Index != 1 {
+			return nil, false
+		}
+		call, ok := ex.Tuple.(*ssa.Call)
+		if !ok {
+			return nil, false
+		}
+		str, pos, ok := decodeAt(c, call)
+		if !ok || pos != ssa.Value(p) {
+			return nil, false
+		}
+		if s != nil && s != str {
+			return nil, false
+		}
+		s = str
+		nBack++
+	}
+	return s, s != nil && nBack > 0
+}
+
+// decodeAt: call is utf8.DecodeRuneInString(str[pos:]).
+func decodeAt(c *Ctx, call *ssa.Call) (str, pos ssa.Value, ok bool) {
+	if c.calleeName(call.Common()) != "unicode/utf8.DecodeRuneInString" || len(call.Call.Args) != 1 {
+		return nil, nil, false
+	}
+	sl, isSl := call.Call.Args[0].(*ssa.Slice)
+	if !isSl || sl.Low == nil || sl.High != nil {
+		return nil, nil, false
+	}
+	return sl.X, sl.Low, true
+}
+
+// runeCursorCall: call decodes the rune at the position of a hand-written rune loop over the returned string.
+func runeCursorCall(c *Ctx, call *ssa.Call) (ssa.Value, bool) {
+	str, pos, ok := decodeAt(c, call)
+	if !ok {
+		return nil, false
+	}
+	p, isPhi := pos.(*ssa.Phi)
+	if !isPhi {
+		return nil, false
+	}
+	s, ok := runePosPhi(c, p)
+	if !ok || s != str {
+		return nil, false
+	}
+	return s, true
 }
